@@ -38,6 +38,31 @@ type Prover struct {
 	intBits int
 	canon   map[*ssa.UnOp]*ssa.UnOp
 	nilSum  func(callee *ssa.Function) []paramCond // nil-return conditions of module functions
+	// atBlock: the block of the instruction the current facts are collected for (phis of dispatch
+	// blocks are read as the value they have there)
+	atBlock *ssa.BasicBlock
+}
+
+// phiHere resolves a dispatch-block phi to the value it has at the current proof site.
+func (pr *Prover) phiHere(v ssa.Value) ssa.Value {
+	for i := 0; i < 4; i++ {
+		ph, ok := v.(*ssa.Phi)
+		if !ok {
+			return v
+		}
+		if cv := canonPhi(ph); cv != ssa.Value(ph) {
+			v = cv
+			continue
+		}
+		if pr.atBlock != nil {
+			if w := phiValueIn(ph, pr.atBlock); w != nil {
+				v = w
+				continue
+			}
+		}
+		return v
+	}
+	return v
 }
 
 func newProver(p *Prog, fn *ssa.Function) *Prover {
@@ -643,6 +668,12 @@ func (pr *Prover) phiFacts(fs *factSet, ph *ssa.Phi) {
 			if allDown {
 				fs.le(self, inits[0], 0, "monotone induction")
 			}
+			// what is known about the initial value (itself often an induction variable of an earlier loop)
+			for _, e := range ph.Edges {
+				if le := pr.lin(e); le.T != self.T && le.T != zeroTerm {
+					pr.defFacts(fs, e, 8)
+				}
+			}
 		}
 		return
 	}
@@ -711,6 +742,7 @@ func (pr *Prover) collect(at ssa.Instruction, operands ...ssa.Value) *factSet {
 	fs := &factSet{cong: map[string]congruence{}, seen: map[string]bool{}}
 	// F1: dominating branch edges
 	b := at.Block()
+	pr.atBlock = b
 	for _, ec := range allEntryConds(b) {
 		pr.condFacts(fs, ec.Cond, ec.Val, "branch "+pr.P.pos(ec.Cond.Pos()))
 		pr.nilEdgeFacts(fs, ec.Cond, ec.Val)
@@ -1322,7 +1354,7 @@ func (pr *Prover) nilEdgeFacts(fs *factSet, cond ssa.Value, pol bool) {
 	if !isNil {
 		return
 	}
-	call, ok := deref(r).(*ssa.Call)
+	call, ok := deref(pr.phiHere(r)).(*ssa.Call)
 	if !ok {
 		return
 	}
